@@ -70,6 +70,10 @@ def cases(tier, seed):
     ic = [["L", "Q." + q] for q in ("iarch", "ibox", "ikite", "ilens")]
     for a in ic:
         specs.append({"id": "intcurved:%s" % a[1], "A": a, "Bs": ic, "timeout": 1500})
+    # segments of different degrees that start with the same control points / share whole sides
+    cp = [["L", "Q." + q] for q in ("cpsq", "cprs", "cpcub", "cplens")]
+    for a in cp:
+        specs.append({"id": "sharedctrl:%s" % a[1], "A": a, "Bs": cp, "timeout": 300})
     # the same curved drawings in millimetres instead of metres (1/1024) and magnified (x 4096)
     for fac in ("1/1024", "4096"):
         sc = [["SCL", "Q." + q, fac] for q in ("c8", "lens", "blob", "ftri", "c16b", "mixg")]
